@@ -59,6 +59,44 @@ pub fn run(key: &str, a: &[String], out: &mut Out) {
             });
             out.case(key, a, &[fmt_res_bdd(&fused), fmt_res_bdd(&sep)]);
         }
+        "C04.binA" => {
+            // <alias|clone> table conn A fl fr fo: both operands are the same function; `alias` passes the SAME
+            // object twice (`&a, &a`), `clone` passes an equal copy
+            let x = Bdd::from_string(&a[3]);
+            let y = x.clone();
+            let alias = a[0] == "alias";
+            let (l, r): (&Bdd, &Bdd) = if alias { (&x, &x) } else { (&x, &y) };
+            let (fl, fr, fo) = (parse_flip(&a[4]), parse_flip(&a[5]), parse_flip(&a[6]));
+            let fused = catch(|| Bdd::fused_binary_flip_op((l, flip_var(fl)), (r, flip_var(fr)), flip_var(fo), table_fn(&a[1])));
+            let sep = catch(|| {
+                let l2 = flip_sep(l, fl);
+                let r2 = flip_sep(r, fr);
+                let g = Bdd::binary_op(&l2, &r2, table_fn(&a[1]));
+                flip_sep(&g, fo)
+            });
+            out.case(key, a, &[fmt_res_bdd(&fused), fmt_res_bdd(&sep)]);
+        }
+        "C04.terA" => {
+            // <alias|clone> <pattern> table conn A B fa fb fc fo: pattern over `a`/`b` says which operand positions
+            // hold A (the same object under `alias`) and which one holds B (e.g. `aaa`, `aab`, `aba`, `baa`)
+            let xa = Bdd::from_string(&a[4]);
+            let xb = Bdd::from_string(&a[5]);
+            let copies = [xa.clone(), xa.clone(), xa.clone()];
+            let alias = a[0] == "alias";
+            let pat: Vec<char> = a[1].chars().collect();
+            let pick = |i: usize| -> &Bdd { if pat[i] == 'b' { &xb } else if alias { &xa } else { &copies[i] } };
+            let (x, y, z) = (pick(0), pick(1), pick(2));
+            let (fa, fb, fc, fo) = (parse_flip(&a[6]), parse_flip(&a[7]), parse_flip(&a[8]), parse_flip(&a[9]));
+            let fused = catch(|| Bdd::fused_ternary_flip_op((x, flip_var(fa)), (y, flip_var(fb)), (z, flip_var(fc)), flip_var(fo), table3_fn(&a[2])));
+            let sep = catch(|| {
+                let x2 = flip_sep(x, fa);
+                let y2 = flip_sep(y, fb);
+                let z2 = flip_sep(z, fc);
+                let g = Bdd::ternary_op(&x2, &y2, &z2, table3_fn(&a[2]));
+                flip_sep(&g, fo)
+            });
+            out.case(key, a, &[fmt_res_bdd(&fused), fmt_res_bdd(&sep)]);
+        }
         _ => panic!("unknown key {}", key),
     }
 }
@@ -258,6 +296,68 @@ pub fn gen(tier: Tier, rng: &mut Rng64, out: &mut Out) {
             // a flip that is in range for one operand only
             bin(some_table2(rng, c), c, &ls, &other, None, Some(n), None, out);
             bin(some_table2(rng, c), c, &other, &rs, *rng.pick(&fs), None, None, out);
+        }
+    }
+    // --- ALIASING: both (all three / two of three) operands are the same function — once as the SAME object
+    //     (`&a, &a`), once as equal clones — with all flip combinations (distinct, equal, absent) and all 16
+    //     connectives; n <= 2 exhaustively, n = 3 sampled (thorough: all 256 functions), random operands over 4..6
+    let modes = ["alias", "clone"];
+    let bin_a = |mode: &str, table: String, c: u32, a: &str, fl: Option<usize>, fr: Option<usize>, fo: Option<usize>, out: &mut Out| {
+        run("C04.binA", &[s(mode), table, c.to_string(), s(a), fmt_optvar(fl), fmt_optvar(fr), fmt_optvar(fo)], out);
+    };
+    for n in 1..=2usize {
+        let count = 1u64 << (1u64 << n);
+        let fs = flips(n);
+        for t in 0..count {
+            let a = fmt_bdd(&bdd_of_tt(n, &tt_from_index(n, t)));
+            for fl in &fs { for fr in &fs { for fo in &fs { for c in 0..16u32 {
+                let table = match rng.below(3) { 0 => eager_table2(c), 1 => lazy_table2(c), _ => random_table2(rng, c) };
+                bin_a("alias", table.clone(), c, &a, *fl, *fr, *fo, out);
+                if thorough || rng.chance(1, 4) { bin_a("clone", table, c, &a, *fl, *fr, *fo, out); }
+            } } } }
+        }
+    }
+    let fns3 = if thorough { 256 } else { 24 };
+    for i in 0..fns3 {
+        let a = if thorough { all3[i].clone() } else { rng.pick(&all3).clone() };
+        for fl in &fs3 { for fr in &fs3 { for fo in &fs3 {
+            let tables = if thorough { 16 } else { 2 };
+            for j in 0..tables {
+                let c = if thorough { j as u32 } else { rng.below(16) as u32 };
+                let table = some_table2(rng, c);
+                bin_a("alias", table.clone(), c, &a, *fl, *fr, *fo, out);
+                if thorough || rng.chance(1, 4) { bin_a("clone", table, c, &a, *fl, *fr, *fo, out); }
+            }
+        } } }
+    }
+    for _ in 0..(if thorough { 20000 } else { 500 }) {
+        let n = 4 + rng.below(3) as usize;
+        let mut b = random_bdd(rng, n);
+        if rng.chance(1, 8) { b = noncanon_variant(rng, &b); }
+        let a = fmt_bdd(&b);
+        let fs = flips(n);
+        let c = rng.below(16) as u32;
+        let table = some_table2(rng, c);
+        let (fl, fr, fo) = (*rng.pick(&fs), *rng.pick(&fs), *rng.pick(&fs));
+        for mode in modes { bin_a(mode, table.clone(), c, &a, fl, fr, fo, out); }
+    }
+    // ternary aliasing: all three / two of three operands the same object, a few dozen tables, sampled flips
+    let pats = ["aaa", "aab", "aba", "baa"];
+    let conns3: Vec<u32> = { let mut v = vec![0xCAu32, 0xE8, 0x96, 0x80, 0xFE, 0x1B, 0xAC, 0xD8, 0x69, 0x17, 0x7F, 0x01];
+        for _ in 0..24 { v.push(rng.below(256) as u32); } v };
+    for c3 in &conns3 {
+        for _ in 0..(if thorough { 400 } else { 12 }) {
+            let n = 1 + rng.below(3) as usize;
+            let count = 1u64 << (1u64 << n);
+            let a = fmt_bdd(&bdd_of_tt(n, &tt_from_index(n, rng.below(count))));
+            let b = fmt_bdd(&bdd_of_tt(n, &tt_from_index(n, rng.below(count))));
+            let fs = flips(n);
+            let table = some_table3(rng, *c3);
+            let pat = *rng.pick(&pats);
+            let f: Vec<String> = (0..4).map(|_| fmt_optvar(*rng.pick(&fs))).collect();
+            for mode in modes {
+                run("C04.terA", &[s(mode), s(pat), table.clone(), c3.to_string(), a.clone(), b.clone(), f[0].clone(), f[1].clone(), f[2].clone(), f[3].clone()], out);
+            }
         }
     }
     emit_big(rng, out);
